@@ -25,6 +25,8 @@ func configs(run *mon.Run) []stress.Config {
 		{Name: "ring-resp2", Queue: "ring", RESP2: true, Multiplex: -1, RingScale: 2, Callers: callers, Ops: ops, CancelPct: 15},
 		{Name: "flow-resp2", Queue: "flowbuffer", RESP2: true, Multiplex: 1, RingScale: 3, Callers: callers, Ops: ops, CancelPct: 0},
 		{Name: "ring-nocancel-2callers", Queue: "ring", Multiplex: -1, RingScale: 1, Callers: 2, Ops: ops * 4, CancelPct: 0},
+		{Name: "cluster-ring", Queue: "ring", Multiplex: -1, RingScale: 2, Cluster: true, Callers: callers, Ops: ops, CancelPct: 20},
+		{Name: "cluster-flow-mux", Queue: "flowbuffer", Multiplex: 1, RingScale: 3, Cluster: true, Callers: callers, Ops: ops, CancelPct: 10},
 		{Name: "ring-sync-to-pipe", Queue: "ring", Multiplex: -1, RingScale: 2, Callers: 3, Ops: ops * 3, CancelPct: 25},
 	}
 	for i := range cs {
